@@ -1991,6 +1991,38 @@ func (r *Run) callMayWriteField(caller *ssa.Function, site ssa.CallInstruction, 
 	return false
 }
 
+// nonNilOnEdge: v is known non-nil when control goes from pred to succ — at the end of pred
+// already, or because that edge is the non-nil / ok branch of the test pred ends with.
+func (r *Run) nonNilOnEdge(v ssa.Value, pred, succ *ssa.BasicBlock) bool {
+	if len(pred.Instrs) == 0 {
+		return false
+	}
+	last := pred.Instrs[len(pred.Instrs)-1]
+	if ok, _ := r.nonNilAt(v, last); ok {
+		return true
+	}
+	iff, ok := last.(*ssa.If)
+	if !ok || len(pred.Succs) != 2 || pred.Succs[0] == pred.Succs[1] {
+		return false
+	}
+	if side := nilTestSide(iff, func(x ssa.Value) bool { return x == v }); side != nil {
+		return side == succ
+	}
+	if ex, isEx := v.(*ssa.Extract); isEx {
+		if lk, isLk := ex.Tuple.(*ssa.Lookup); isLk && lk.CommaOk {
+			cond := iff.Cond
+			truth := 0
+			if not, isNot := cond.(*ssa.UnOp); isNot && not.Op == token.NOT {
+				cond, truth = not.X, 1
+			}
+			if okv, isOk := cond.(*ssa.Extract); isOk && okv.Tuple == ssa.Value(lk) && okv.Index == 1 {
+				return pred.Succs[truth] == succ
+			}
+		}
+	}
+	return false
+}
+
 // truthSides: the blocks entered only when the boolean b is true — the true successor of
 // `if b`, the false successor of `if !b`; short-circuit conditions (`ok && …`) have already
 // been split into such tests by go/ssa.
@@ -2292,6 +2324,23 @@ func (r *Run) nilChecks(fn *ssa.Function) (nP3, nP5 int) {
 				for _, ref := range *v.Referrers() {
 					if phi, isPhi := ref.(*ssa.Phi); isPhi && derefOf(u) == ssa.Value(phi) {
 						ok, why = r.nonNilAt(phi, u)
+						// or the value enters the phi only on edges on which it is non-nil
+						// (`p, ok := m[k]; if !ok { p = new }; p.f = …`)
+						if !ok {
+							all, n := true, 0
+							for i, e := range phi.Edges {
+								if e != v || i >= len(phi.Block().Preds) {
+									continue
+								}
+								n++
+								if !r.nonNilOnEdge(v, phi.Block().Preds[i], phi.Block()) {
+									all = false
+								}
+							}
+							if all && n > 0 {
+								ok, why = true, "merged with a fresh value: it flows on only along the edge on which it is known to be present / non-nil"
+							}
+						}
 					}
 				}
 			}
@@ -2310,6 +2359,10 @@ func (r *Run) nilChecks(fn *ssa.Function) (nP3, nP5 int) {
 		}
 		if badUse == nil {
 			r.OK("R7."+kind, name, construct, site, "every dereference is "+arg)
+			continue
+		}
+		if why, ok := r.chainWalker(fn, v); ok {
+			r.OK("R7."+kind, name, construct, site, why)
 			continue
 		}
 		if reason, ok := useTable(r, nilTable, name+"/"+construct); ok {
@@ -2476,8 +2529,86 @@ var allTables = []namedTable{
 // must be ranged over somewhere with the validator applied to the element's T and its answer
 // tested — otherwise the elements of that list reach the walkers unchecked. (This is what the
 // tabled nil entries for the walkers rest on.)
+type chainRead struct {
+	fn  *ssa.Function
+	ins ssa.Instruction
+}
+
+type chainFacts struct {
+	validators map[*types.Named][]*ssa.Function
+	reads      map[*types.Var][]chainRead
+	chainOf    map[*types.Var]*types.Named
+	validated  map[*types.Var]bool
+}
+
+var chainMemo = map[*Prog]*chainFacts{}
+
 func (r *Run) chainRefLists(set map[*ssa.Function]bool) {
 	const rule = "R7.P5.chain"
+	cf := r.chainAnalysis()
+	reads, chainOf, validated, validators := cf.reads, cf.chainOf, cf.validated, cf.validators
+	var fields []*types.Var
+	for f := range reads {
+		fields = append(fields, f)
+	}
+	sort.Slice(fields, func(i, j int) bool { return fields[i].Pos() < fields[j].Pos() })
+	for _, f := range fields {
+		nt := chainOf[f]
+		construct := "elements of " + f.Name() + " hold a " + nt.Obj().Name() + " chain"
+		for _, rd := range reads[f] {
+			r.silent = !set[rd.fn]
+			if validated[f] {
+				r.OK(rule, fnName(rd.fn), construct, r.P.pos(rd.ins.Pos()), "the list is ranged over with the chain validator applied to every element and its answer tested")
+			} else {
+				r.Bad(rule, fnName(rd.fn), construct, r.P.pos(rd.ins.Pos()), "the list field "+f.Name()+" is read, but nowhere in the module is it ranged over with the "+nt.Obj().Name()+" validator ("+fnName(validators[nt][0])+") applied to its elements: a reference in it whose wrapper chain ends early (ofType: null) reaches the code that follows the chain without a nil test; "+r.ctxNote(rd.fn))
+			}
+		}
+	}
+	r.silent = false
+}
+
+// chainWalker: v is the self-referential pointer field of a chain type that has a validator,
+// read in a function that is not itself a validator: whether the chain is complete there is
+// decided at the lists the references come from (R7.P5.chain), not at the walker.
+func (r *Run) chainWalker(fn *ssa.Function, v ssa.Value) (string, bool) {
+	ld, ok := v.(*ssa.UnOp)
+	if !ok || ld.Op != token.MUL {
+		return "", false
+	}
+	fa, ok := ld.X.(*ssa.FieldAddr)
+	if !ok {
+		return "", false
+	}
+	nt, _ := derefType(fa.X.Type()).(*types.Named)
+	f := fieldOf(fa)
+	if nt == nil || f == nil {
+		return "", false
+	}
+	if p, ok := f.Type().(*types.Pointer); !ok || !types.Identical(p.Elem(), nt) {
+		return "", false
+	}
+	cf := r.chainAnalysis()
+	if len(cf.validators[nt]) == 0 {
+		return "", false
+	}
+	for _, vf := range cf.validators[nt] {
+		if vf == fn {
+			return "", false
+		}
+	}
+	for fld, t := range cf.chainOf {
+		if t == nt && !cf.validated[fld] {
+			return "", false
+		}
+	}
+	return "link of a " + nt.Obj().Name() + " chain: every list whose elements hold such a chain is validated with " + fnName(cf.validators[nt][0]) + " before it is converted (R7.P5.chain, checked on this run), and a validated chain carries this link wherever its kind says there is one — the correspondence between what the validator accepts and what the walker follows is by reading", true
+}
+
+func (r *Run) chainAnalysis() *chainFacts {
+	if cf, ok := chainMemo[r.P]; ok {
+		return cf
+	}
+	type read = chainRead
 	// chain types and their validators
 	validators := map[*types.Named][]*ssa.Function{}
 	for _, fn := range r.P.Funcs {
@@ -2506,7 +2637,9 @@ func (r *Run) chainRefLists(set map[*ssa.Function]bool) {
 		}
 	}
 	if len(validators) == 0 {
-		return
+		cf := &chainFacts{validators: validators, reads: map[*types.Var][]chainRead{}, chainOf: map[*types.Var]*types.Named{}, validated: map[*types.Var]bool{}}
+		chainMemo[r.P] = cf
+		return cf
 	}
 	holdsChain := func(elem types.Type) (*types.Named, bool) {
 		st, ok := derefType(elem).Underlying().(*types.Struct)
@@ -2528,32 +2661,81 @@ func (r *Run) chainRefLists(set map[*ssa.Function]bool) {
 		}
 		return nil, false
 	}
-	type read struct {
-		fn  *ssa.Function
-		ins ssa.Instruction
-	}
 	reads := map[*types.Var][]read{}
 	chainOf := map[*types.Var]*types.Named{}
 	validated := map[*types.Var]bool{}
+	// the answer of the call decides a branch (directly, negated, compared with nil/false)
 	tested := func(c *ssa.Call) bool {
-		if c.Referrers() == nil {
+		seen := map[ssa.Value]bool{}
+		var reaches func(v ssa.Value, depth int) bool
+		reaches = func(v ssa.Value, depth int) bool {
+			if v.Referrers() == nil || seen[v] || depth > 4 {
+				return false
+			}
+			seen[v] = true
+			for _, ref := range *v.Referrers() {
+				switch x := ref.(type) {
+				case *ssa.If:
+					return true
+				case *ssa.UnOp:
+					if x.Op == token.NOT && reaches(x, depth+1) {
+						return true
+					}
+				case *ssa.BinOp:
+					if (x.Op == token.EQL || x.Op == token.NEQ) && reaches(x, depth+1) {
+						return true
+					}
+				case *ssa.Extract:
+					if reaches(x, depth+1) {
+						return true
+					}
+				}
+			}
 			return false
 		}
-		for _, ref := range *c.Referrers() {
-			switch x := ref.(type) {
-			case *ssa.If:
+		return reaches(c, 0)
+	}
+	isValidator := func(callee *ssa.Function, nt *types.Named) bool {
+		for _, v := range validators[nt] {
+			if callee == v {
 				return true
-			case *ssa.UnOp:
-				if x.Op == token.NOT && x.Referrers() != nil {
-					for _, r2 := range *x.Referrers() {
-						if _, ok := r2.(*ssa.If); ok {
-							return true
+			}
+		}
+		return false
+	}
+	// a function that hands one of its *T parameters to a validator and branches on the answer
+	// is a validator too (`checkTypeRef(ref) error { if !ref.complete() {…} }`)
+	for round := 0; round < 3; round++ {
+		for _, fn := range r.P.Funcs {
+			if fn.Synthetic != "" {
+				continue
+			}
+			for _, prm := range fn.Params {
+				nt, _ := derefType(prm.Type()).(*types.Named)
+				if nt == nil || validators[nt] == nil || isValidator(fn, nt) || prm.Referrers() == nil {
+					continue
+				}
+				if _, isPtr := prm.Type().Underlying().(*types.Pointer); !isPtr {
+					continue
+				}
+				for _, ref := range *prm.Referrers() {
+					c, ok := ref.(*ssa.Call)
+					if !ok || c.Call.IsInvoke() {
+						continue
+					}
+					uses := false
+					for _, a := range c.Call.Args {
+						if a == ssa.Value(prm) {
+							uses = true
 						}
+					}
+					if uses && isValidator(r.P.declared(c.Call.StaticCallee()), nt) && tested(c) {
+						validators[nt] = append(validators[nt], fn)
+						break
 					}
 				}
 			}
 		}
-		return false
 	}
 	// does the element address `base` (an IndexAddr into the list, or the cell the element was
 	// copied into) have its chain field handed to a validator whose answer is tested?
@@ -2583,14 +2765,60 @@ func (r *Run) chainRefLists(set map[*ssa.Function]bool) {
 				}
 				for _, r2 := range *rv.Referrers() {
 					c, ok := r2.(*ssa.Call)
-					if !ok || len(c.Call.Args) == 0 || c.Call.Args[0] != rv {
+					if !ok || c.Call.IsInvoke() {
 						continue
 					}
-					callee := r.P.declared(c.Call.StaticCallee())
-					for _, v := range validators[nt] {
-						if callee == v && tested(c) {
+					uses := false
+					for _, a := range c.Call.Args {
+						if a == rv {
+							uses = true
+						}
+					}
+					if uses && isValidator(r.P.declared(c.Call.StaticCallee()), nt) && tested(c) {
+						return true
+					}
+				}
+			}
+		}
+		return false
+	}
+	// the list is ranged over with every element validated — here, or in a module function it
+	// is handed to
+	var listValidated func(list ssa.Value, nt *types.Named, depth int) bool
+	listValidated = func(list ssa.Value, nt *types.Named, depth int) bool {
+		if list.Referrers() == nil || depth > 2 {
+			return false
+		}
+		for _, ref := range *list.Referrers() {
+			if c, ok := ref.(*ssa.Call); ok && !c.Call.IsInvoke() {
+				g := r.P.declared(c.Call.StaticCallee())
+				if g != nil && inModule(g) && g.Blocks != nil && len(g.Params) == len(c.Call.Args) && tested(c) {
+					for k, a := range c.Call.Args {
+						if a == list && listValidated(g.Params[k], nt, depth+1) {
 							return true
 						}
+					}
+				}
+				continue
+			}
+			ia, ok := ref.(*ssa.IndexAddr)
+			if !ok || ia.X != list || ia.Referrers() == nil {
+				continue
+			}
+			if elemValidated(ia, nt) {
+				return true
+			}
+			for _, r2 := range *ia.Referrers() {
+				ld, ok := r2.(*ssa.UnOp)
+				if !ok || ld.Op != token.MUL || ld.Referrers() == nil {
+					continue
+				}
+				if _, isPtr := ld.Type().Underlying().(*types.Pointer); isPtr && elemValidated(ld, nt) {
+					return true // a list of pointers: the element itself is the base
+				}
+				for _, r3 := range *ld.Referrers() {
+					if st, ok := r3.(*ssa.Store); ok && st.Val == ssa.Value(ld) && elemValidated(st.Addr, nt) {
+						return true
 					}
 				}
 			}
@@ -2622,52 +2850,14 @@ func (r *Run) chainRefLists(set map[*ssa.Function]bool) {
 			}
 			chainOf[f] = nt
 			reads[f] = append(reads[f], read{fn, ins})
-			if list.Referrers() == nil {
-				continue
-			}
-			for _, ref := range *list.Referrers() {
-				ia, ok := ref.(*ssa.IndexAddr)
-				if !ok || ia.X != list || ia.Referrers() == nil {
-					continue
-				}
-				if elemValidated(ia, nt) {
-					validated[f] = true
-				}
-				for _, r2 := range *ia.Referrers() {
-					ld, ok := r2.(*ssa.UnOp)
-					if !ok || ld.Op != token.MUL || ld.Referrers() == nil {
-						continue
-					}
-					if _, isPtr := ld.Type().Underlying().(*types.Pointer); isPtr && elemValidated(ld, nt) {
-						validated[f] = true // a list of pointers: the element itself is the base
-					}
-					for _, r3 := range *ld.Referrers() {
-						if st, ok := r3.(*ssa.Store); ok && st.Val == ssa.Value(ld) && elemValidated(st.Addr, nt) {
-							validated[f] = true
-						}
-					}
-				}
+			if listValidated(list, nt, 0) {
+				validated[f] = true
 			}
 		}
 	}
-	var fields []*types.Var
-	for f := range reads {
-		fields = append(fields, f)
-	}
-	sort.Slice(fields, func(i, j int) bool { return fields[i].Pos() < fields[j].Pos() })
-	for _, f := range fields {
-		nt := chainOf[f]
-		construct := "elements of " + f.Name() + " hold a " + nt.Obj().Name() + " chain"
-		for _, rd := range reads[f] {
-			r.silent = !set[rd.fn]
-			if validated[f] {
-				r.OK(rule, fnName(rd.fn), construct, r.P.pos(rd.ins.Pos()), "the list is ranged over with the chain validator applied to every element and its answer tested")
-			} else {
-				r.Bad(rule, fnName(rd.fn), construct, r.P.pos(rd.ins.Pos()), "the list field "+f.Name()+" is read, but nowhere in the module is it ranged over with the "+nt.Obj().Name()+" validator ("+fnName(validators[nt][0])+") applied to its elements: a reference in it whose wrapper chain ends early (ofType: null) reaches the code that follows the chain without a nil test; "+r.ctxNote(rd.fn))
-			}
-		}
-	}
-	r.silent = false
+	cf := &chainFacts{validators: validators, reads: reads, chainOf: chainOf, validated: validated}
+	chainMemo[r.P] = cf
+	return cf
 }
 
 // jsonDecodedList: v is a list read from a variable that was handed to encoding/json, or a
